@@ -1,6 +1,7 @@
 package main
 
 import (
+	"sync/atomic"
 	"fmt"
 	"runtime"
 	"strings"
@@ -30,8 +31,18 @@ func pointsOf(s string) []banderwagon.Element {
 	return out
 }
 
-// run f with a watchdog: a hang is an observable
+// run f with a watchdog: a hang is an observable.  After three hangs in one process further
+// watched calls are not started (each would cost another full watchdog period and leak more
+// blocked goroutines); they are reported as HANG-SKIPPED.
+var hangCount int32
+
 func watchdog(sec int, f func() string) string {
+	if atomic.LoadInt32(&hangCount) >= 3 {
+		return "HANG-SKIPPED"
+	}
+	if sec > 40 {
+		sec = 40
+	}
 	ch := make(chan string, 1)
 	go func() {
 		defer func() {
@@ -45,6 +56,7 @@ func watchdog(sec int, f func() string) string {
 	case r := <-ch:
 		return r
 	case <-time.After(time.Duration(sec) * time.Second):
+		atomic.AddInt32(&hangCount, 1)
 		return "HANG"
 	}
 }
